@@ -209,16 +209,28 @@ def known_match(pid, cls, known):
     return None
 
 
+PROTECTED = ("board", "init", "boot", "rslog", "inflags", "motor", "rstimes", "rspos", "cfg", "start", "sentbytes",
+             "connected", "resolve")
+
+
 def shrink_case(spec, impl_exe, model_cmd, case, pred):
-    def fails(ops):
-        r = run_case(spec, impl_exe, model_cmd, Case("shrink", ops, case.meta))
+    """ddmin over the removable ops; set-up ops stay so that the replay remains meaningful"""
+    keep = [i for i, o in enumerate(case.ops) if o.split()[0] in PROTECTED]
+    removable = [i for i in range(len(case.ops)) if i not in keep]
+
+    def build(idx):
+        chosen = sorted(set(keep) | set(idx))
+        return [case.ops[i] for i in chosen]
+
+    def fails(idx):
+        r = run_case(spec, impl_exe, model_cmd, Case("shrink", build(idx), dict(case.meta)))
         return pred(r)
 
     try:
-        ops = C.ddmin(list(case.ops), fails, max_tests=150)
+        idx = C.ddmin(list(removable), fails, max_tests=150)
     except Exception:
-        ops = case.ops
-    return ops
+        idx = removable
+    return build(idx)
 
 
 def run_property(spec, tier, sd, replay, t0):
